@@ -9,7 +9,7 @@
 
   The C++ harness (`/verif/harness`) answers the same requests by calling the real manif.
 -/
-import ManifModel.Flat
+import ManifModel.Bundle
 open Manif
 
 def hexDigit (c : Char) : Option Nat :=
@@ -59,7 +59,7 @@ def respond (line : String) : String :=
       match parse toks [] [] with
       | none => "bad-op"
       | some (fs, is) =>
-        match runGroup (K := Float) grp dbg op mask fs is with
+        match runTop (K := Float) grp dbg op mask fs is with
         | none => "bad-op"
         | some (.error e) => "err " ++ e.name
         | some (.ok out) => " ".intercalate ("ok" :: out.map floatHex)
